@@ -123,7 +123,7 @@ def catalogue_small():
 def meta(tier):
     q = tier == 'quick'
     return {
-        'rule': 'part V: every sequence of 1..3 statements out of 5 for an instruction with two overlapping variants (each statement encoded by the first accepting variant whatever came before); part A: frames (default endianness x opcode size/value x opcode endianness x opcode suffix) x every single-operand '
+        'rule': 'part Z: zero-operand variants with their own opcode suffix; part S: one operand set used for two positions (and by two statements on one line) x operand texts that differ only in letter case; part V: every sequence of 1..3 statements out of 5 for an instruction with two overlapping variants (each statement encoded by the first accepting variant whatever came before); part A: frames (default endianness x opcode size/value x opcode endianness x opcode suffix) x every single-operand '
                 'shape of the full catalogue (every operand type; argument widths 1..64 x byte_align x endianness; code sizes x '
                 'prefix/suffix) x every value instance (all values for widths <=4, boundary and pattern values otherwise, negative '
                 'values, a constant reference); part B: frames x ordered pairs of the small catalogue x reverse_argument_order x '
@@ -143,7 +143,7 @@ def meta(tier):
             'statements are batched (one assembly per generated ISA definition and base address); on any mismatch every statement '
             'of the batch is re-assembled on its own to isolate the failing ones',
         ],
-        'floors': {'evaluations': 50, 'nontrivial': 1000, 'statuses': ['OK'], 'clauses': ['single', 'pair', 'variant-sequence', 'zero-operand-variant']},
+        'floors': {'evaluations': 50, 'nontrivial': 1000, 'statuses': ['OK'], 'clauses': ['single', 'pair', 'variant-sequence', 'zero-operand-variant', 'shared-operand-set']},
         'nshards': 64, 'xcheck': 8,
     }
 
@@ -217,6 +217,7 @@ def shard(acc, tier, idx, n):
     ctr = 0
     variant_sequences(acc, idx, n)
     zero_operand_variants(acc, idx, n)
+    shared_operand_set(acc, idx, n)
     full = catalogue_full()
     ycat = catalogue_yaml()
     small = catalogue_small()
@@ -335,6 +336,50 @@ def zero_operand_variants(acc, idx, n):
                     if m:
                         acc.violation([case], spec, f'{spec["statement"]} (opcode {w0} bits, suffix {sw} bits, {de}): {m}', [out])
                     acc.judge(clause='zero-operand-variant', nontrivial_distinct=True)
+
+
+def shared_operand_set(acc, idx, n):
+    """One operand set used for two positions of an instruction (and by several instructions on one line): each operand is encoded from
+    its own text - labels, constants and character literals are case sensitive, so 'a' / 'A' and kv / KV are different values."""
+    from mc import refenc
+    for di, de in enumerate(('big', 'little')):
+        isa = {'general': {'address_size': 16, 'endian': de, 'registers': ['a', 'b'], 'min_version': '0.3.0'},
+               'operand_sets': {'v8': {'operand_values': {'ra': {'type': 'register', 'register': 'a', 'bytecode': {'value': 1, 'size': 2}},
+                                                          'i': {'type': 'numeric', 'bytecode': {'value': 2, 'size': 2}, 'argument': {'size': 8, 'byte_align': True}}}},
+                                'v16': {'operand_values': {'w': {'type': 'numeric', 'argument': {'size': 16, 'byte_align': True}}}}},
+               'instructions': {'cmp': {'bytecode': {'value': 9, 'size': 4}, 'operands': {'count': 2, 'operand_sets': {'list': ['v8', 'v8']}}},
+                                'ldw': {'bytecode': {'value': 0xC3, 'size': 8}, 'operands': {'count': 2, 'operand_sets': {'list': ['v16', 'v16']}}}}}
+        vals = {"'a'": 0x61, "'A'": 0x41, 'kv': 0x15, 'KV': 0x29, 'kv+1': 0x16, 'KV+1': 0x2A, "'q'": 0x71, 'a': None, 'A': None}
+
+        def cmp_bytes(x, y):
+            fields = [(9, 4, False, de)]
+            for t in (x, y):
+                fields.append(((1, 2, False, 'big') if vals[t] is None else (2, 2, False, 'big')))
+            for t in (x, y):
+                if vals[t] is not None:
+                    fields.append((vals[t], 8, True, de))
+            return bytes(refenc.encode(fields))
+
+        def ldw_bytes(x, y):
+            return bytes(refenc.encode([(0xC3, 8, False, de), (vals[x] + 0x1200, 16, True, de), (vals[y] + 0x1200, 16, True, de)]))
+
+        texts = list(vals)
+        stmts = [(f'cmp {x}, {y}', cmp_bytes(x, y)) for x, y in itertools.product(texts, repeat=2)]
+        stmts += [(f'ldw {x}+$1200, {y}+$1200', ldw_bytes(x, y)) for x, y in itertools.product(('kv', 'KV'), repeat=2)]
+        ctr = 0
+        for k in (1, 2):
+            for seq in itertools.product(stmts, repeat=k):
+                ctr += 1
+                if ctr % n != idx or (k == 2 and (ctr // n) % 3):
+                    continue            # pairs: every third (of each shard) - they are joined on one line
+                src = 'kv = $15\nKV = $29\n    ' + ' '.join(t for t, _ in seq) + '\n'
+                case = Case(isa, src)
+                out = acc.run(case)
+                spec = {'expect': 'OK', 'image_hex': b''.join(d for _, d in seq).hex(), 'statement': ' '.join(t for t, _ in seq), 'address': 0}
+                m = judge(spec, [out])
+                if m:
+                    acc.violation([case], spec, f'{spec["statement"]} ({de}): {m}', [out])
+                acc.judge(clause='shared-operand-set', nontrivial_distinct=True)
 
 
 def judge(spec, outcomes):
